@@ -817,11 +817,23 @@ def order_preserved(ctx, facts):
         app = f.calls(r"::(emplace_back|push_back)\b")
         front = f.calls(r"::(emplace_front|push_front)\b")
         by_index = False
-        for lp in [n for n in f.walk() if n["k"] == "ForStmt"]:
-            init = lp.get("init")
-            iv = init["decls"][0]["did"] if isnode(init) and init["k"] == "DeclStmt" and init.get("decls") else None
+        # up-counting index variables: initialised with 0, incremented by one (++ / += 1) and changed in no other way — the counter of a
+        # for loop or of its while form
+        inits_ = f.var_inits()
+        counters = set()
+        for vid, i_ in inits_.items():
+            if const_val(i_) != 0:
+                continue
+            incs = [x for x in f.walk() if (x["k"] == "UnaryOperator" and x["op"] == "++" and var_ref(x["sub"]) == vid) or
+                    (x["k"] == "CompoundAssignOperator" and x["op"] == "+=" and var_ref(x["lhs"]) == vid and const_val(x["rhs"]) == 1)]
+            other_w = [x for x in f.walk() if (x["k"] == "UnaryOperator" and x["op"] == "--" and var_ref(x["sub"]) == vid) or
+                       (x["k"] == "CompoundAssignOperator" and var_ref(x["lhs"]) == vid and x not in incs) or
+                       (x["k"] == "BinaryOperator" and x["op"] == "=" and var_ref(x["lhs"]) == vid)]
+            if incs and not other_w:
+                counters.add(vid)
+        for lp in [n for n in f.walk() if n["k"] in ("ForStmt", "WhileStmt")]:
             for x in walk(lp.get("body")):
-                if is_call(x, r"::operator\[\]") and len(x.get("args", [])) == 2 and var_ref(x["args"][1]) == iv and iv is not None:
+                if is_call(x, r"::operator\[\]") and len(x.get("args", [])) == 2 and var_ref(x["args"][1]) in counters:
                     by_index = True
         ctx.ob("C04.R7b", "%s:appends-in-order" % f.cls.replace("quill::", "")[:120], (bool(app) or by_index) and not front,
                "decoded elements are appended at the back, in the order they were encoded", fn=f)
